@@ -14,7 +14,26 @@ META = {
 STEPS = {"quick": 100, "thorough": 4000}
 
 
+def respell(roots, rnd, root):
+    """other spellings of the same paths: absolute, through an interior `..`, doubled separators.  The stored
+    entry name keeps only the normal components (EntryName::from_lossy), so `/abs/t/a` is entry `abs/t/a` and
+    `t/../t/a` is entry `t/t/a`: create/append/update must agree with one another on that name."""
+    r = rnd.random()
+    if r < 0.70:
+        return roots
+    if r < 0.85:
+        return [os.path.join(root, p[2:] if p.startswith("./") else p) for p in roots]
+    if r < 0.95:
+        return ["t/../" + (p[2:] if p.startswith("./") else p) for p in roots]
+    return [p.replace("/", "//", 1) for p in roots]
+
+
 def pick_roots(tree, rnd):
+    roots, rec = pick_roots0(tree, rnd)
+    return respell(roots, rnd, tree.sb.root), rec
+
+
+def pick_roots0(tree, rnd):
     r = rnd.random()
     dirs = tree.dirs()
     files = tree.files()
